@@ -401,8 +401,8 @@ func (c *Ctx) nodeDBWritesViaBatch(P string) Obligation {
 		}
 		for _, s := range c.callSites(fn, `^invoke github\.com/tendermint/tm-db\.Batch\.(Write|WriteSync)\(`) {
 			o.Facts++
-			if FnName(fn) != "(*store/iavl.nodeDB).Commit" {
-				o.fail(c.A.Pos(s.Ins.Pos()), "%s writes a batch outside nodeDB.Commit", FnName(fn))
+			if ok, who := c.allowedFn(fn, []string{`\(\*store/iavl\.nodeDB\)\.Commit`}); !ok {
+				o.fail(c.A.Pos(s.Ins.Pos()), "%s writes a batch outside nodeDB.Commit", who)
 			}
 		}
 		o.Facts += len(c.callSites(fn, `^invoke github\.com/tendermint/tm-db\.Batch\.(Set|Delete)\(`))
